@@ -167,6 +167,79 @@ func checkMulti(c *runner.Ctx, src []byte, desc, mode string) {
 	c.Outcome("ok")
 }
 
+// checkBatch: several different files of one directory handled through the library the way a caller with many
+// generated files may do it: parse every file first, write them afterwards (in either order, one of them possibly never
+// written). What ParseFile returned for one file must not depend on the files parsed after it.
+func checkBatch(c *runner.Ctx, srcs [][]byte, desc string, order []int) {
+	dir := filepath.Join(scratch, fmt.Sprintf("b%d", c.Worker))
+	os.MkdirAll(dir, 0755)
+	paths := make([]string, len(srcs))
+	writes := make([]func() error, len(srcs))
+	det := func() map[string]interface{} {
+		fs := []string{}
+		for _, s := range srcs {
+			fs = append(fs, string(s))
+		}
+		return map[string]interface{}{"files": fs, "what": desc, "write_order": fmt.Sprint(order), "via": "ParseFile of every file, then WriteFile"}
+	}
+	var perr error
+	pan, msg, site := runner.Guard(func() {
+		for i, src := range srcs {
+			paths[i] = filepath.Join(dir, fmt.Sprintf("f%d.pb.go", i))
+			os.WriteFile(paths[i], src, 0644)
+			areas, e := file.ParseFile(paths[i])
+			if e != nil {
+				perr = e
+				return
+			}
+			p := paths[i]
+			writes[i] = func() error { return file.WriteFile(p, areas) }
+		}
+		for _, i := range order {
+			if e := writes[i](); e != nil {
+				perr = e
+				return
+			}
+		}
+	})
+	c.AddTransitions(len(srcs) + len(order))
+	if pan {
+		d := det()
+		d["panic"] = msg
+		c.Violation("panic@"+site+"/batch", d)
+		return
+	}
+	if perr != nil {
+		d := det()
+		d["error"] = perr.Error()
+		c.Violation("library-error/batch", d)
+		return
+	}
+	written := map[int]bool{}
+	for _, i := range order {
+		written[i] = true
+	}
+	for i, src := range srcs {
+		got, _ := os.ReadFile(paths[i])
+		if !written[i] {
+			if !bytes.Equal(got, src) {
+				d := det()
+				d["name"], d["output"] = paths[i], string(got)
+				c.Violation("file-never-written-changed/batch", d)
+				return
+			}
+			continue
+		}
+		if kind, detail := inject.Check(src, got); kind != "" {
+			d := det()
+			d["name"], d["output"], d["detail"] = paths[i], string(got), detail
+			c.Violation(kind+"/parse-all-then-write", d)
+			return
+		}
+	}
+	c.Outcome("ok")
+}
+
 func tail(s string) string {
 	if len(s) > 1500 {
 		return s[len(s)-1500:]
@@ -286,6 +359,52 @@ func run(c *runner.Ctx) {
 			}
 		}
 	})
+	// several files parsed before any is written (library entry points): all ordered pairs of one-struct files over the
+	// whole menu (1 field) and a reduced menu (2 fields), written in both orders, and with one of them never written
+	c.Space("library/parse-every-file-then-write")
+	{
+		type one struct {
+			fs   []inject.FieldVariant
+			desc string
+		}
+		var files []one
+		for _, f := range menu {
+			files = append(files, one{[]inject.FieldVariant{f}, f.Shape})
+		}
+		mb := m3
+		if !c.Thorough() && len(mb) > 9 {
+			mb = mb[:9]
+		}
+		for _, f := range mb {
+			for _, g := range mb {
+				files = append(files, one{[]inject.FieldVariant{f, g}, f.Shape + "+" + g.Shape})
+			}
+		}
+		srcOf := func(o one, name string) []byte {
+			return inject.File("", []string{inject.StructDecl(name, o.fs), emb})
+		}
+		orders := [][]int{{0, 1}, {1, 0}, {0}, {1}}
+		for i, a := range files {
+			for j, b := range files {
+				if !c.Take() {
+					continue
+				}
+				_ = j
+				sa, sb := srcOf(a, "First"), srcOf(b, "Second")
+				for _, o := range orders {
+					checkBatch(c, [][]byte{sa, sb}, a.desc+" | "+b.desc, o)
+				}
+				if (i+j)%7 == 0 {
+					// three files, the middle one parsed between the other two; all six write orders
+					sc := srcOf(files[(i+j)%len(files)], "Third")
+					for _, o := range [][]int{{0, 1, 2}, {0, 2, 1}, {1, 0, 2}, {1, 2, 0}, {2, 0, 1}, {2, 1, 0}} {
+						checkBatch(c, [][]byte{sa, sc, sb}, a.desc+" | (third) | "+b.desc, o)
+					}
+				}
+				c.Done(ann(a.fs...) >= 1 && ann(b.fs...) >= 1, 0)
+			}
+		}
+	}
 	// two structs x <=2 fields with filler interleavings
 	m2 := m3
 	if len(m2) > 12 {
@@ -349,7 +468,7 @@ func main() {
 		Rule: "files = optional non-ASCII header + 1..2 struct declarations with 1..3 fields drawn from a 41-variant field menu (no tag / tag only / plain comment / @tag adding, overriding first-middle-last key, overriding+adding, " +
 			"CJK before @tag, multi-name, embedded, pointer type, re-stating, block comment, doc comment mentioning @tag, values with $, |, spaces, colons, backslashes; keys that are a suffix/prefix of an existing key; multi-line and one-line field types holding tag literals of their own; a value already held by another key; protoc-style, json-only and valid-already-present tags) " +
 			"interleaved with filler declarations (func, var, const, interface, alias) whose comments mention @tag; all 1- and 2-field structs, 3-field structs and two-struct files over reduced menus; library path for all (a quarter also with CRLF line endings and / or a byte-order mark), " +
-			"the CLI built from /repo with -f/-d/-p (one file, and three copies processed by one -d / -p run) for a fixed 1/8 slice by index; oracle: bytes outside the annotated fields' tag literals identical, merged key/value/position list equals the model, no duplicate key, " +
+			"two and three different files parsed through ParseFile before any is written through WriteFile (every ordered pair of one-struct files, both write orders, one file never written; triples in all six write orders); the CLI built from /repo with -f/-d/-p (one file, and three copies processed by one -d / -p run) for a fixed 1/8 slice by index; oracle: bytes outside the annotated fields' tag literals identical, merged key/value/position list equals the model, no duplicate key, " +
 			"reflect.StructTag.Lookup of every injected key, output parses; transitions = injector runs; non-trivial = >=2 annotated fields or non-ASCII header",
 		Assumptions: []string{"tag values in the conventional key:\"value\" form without embedded double quote; one trailing comment per field; top-level ungrouped type declarations (statement)"},
 		Run:         run,
